@@ -9,7 +9,8 @@ from odxgen import values as V
 ID = "C01"
 # LEAN_TARGETS / THEOREMS: filled in by the author of lean/OdxVerif/Model/Codec.lean + Props/C01.lean
 # (planned: OdxVerif.Props.C01, theorems OdxVerif.Codec.C01_roundtrip[_partial], …)
-LEAN_TARGETS = ['OdxVerif.Props.C01', 'OdxVerif.Props.C01Fields', 'OdxVerif.Props.C01Nested', 'OdxVerif.Props.C01Compu', 'OdxVerif.Props.C01DynLeaves']
+LEAN_TARGETS = ['OdxVerif.Props.C01', 'OdxVerif.Props.C01Fields', 'OdxVerif.Props.C01Nested', 'OdxVerif.Props.C01Compu', 'OdxVerif.Props.C01DynLeaves',
+                'OdxVerif.Props.C01Nested2']
 DRIVERS = ["drv_codec"]
 THEOREMS = ["OdxVerif.Codec." + t for t in ['C01_roundtrip_struct', 'C01_roundtrip_mux', 'C01_mux_default_key', 'MuxLeaf.sel_of_case', 'MuxLeaf.sel_of_default', 'MuxLeaf.encode_eq', 'MuxLeaf.decode_eq', 'C01_roundtrip_flat', 'C01_roundtrip_partial', 'C01_frame', 'tree_roundtrip', 'flat_core', 'Tree.encode_eq', 'Tree.decode_eq', 'Trees.good',
                                             # field tier (Props/C01Fields.lean, Proofs/FieldTier*.lean)
@@ -39,6 +40,22 @@ THEOREMS += ["OdxVerif.Codec." + t for t in [
     'encodeDct_minmax', 'decodeDct_minmax', 'mm_byteLen', 'MMLeaf.toMid_ok', 'MMLeaf.gFull_ok', 'MMLeaf.gLast_ok',
     'encodeDct_leading', 'decodeDct_leading', 'LeadLeaf.toG_ok', 'Good.reDec', 'Good.thenRaw', 'Good.bytesAt',
     'Good.rawSkip', 'encodeParam_keeps_eop_false', 'k_encode_all']]
+# nested tier, extension W11 (Props/C01Nested2.lean, Proofs/CompExt*.lean): the decoder's cursor, BYTE-SIZE structures, leaves of
+# input-dependent size at any depth, MATCHING-REQUEST-PARAM, DYNAMIC-ENDMARKER-FIELD
+THEOREMS += ["OdxVerif.Codec." + t for t in [
+    'C01_roundtrip_nested_consumes', 'C01_roundtrip_nested_whole', 'C01_roundtrip_nested2', 'C01_roundtrip_nested2_whole',
+    'C01_roundtrip_bytesize', 'C01_roundtrip_nested2_of_described', 'Described.to2', 'Described2.ok', 'DescribedTop.ok', 'mcomps_roundtrip_msg_cur', 'roundtrip_msg_core',
+    'dcomp_roundtrip_msg_cur', 'comps_roundtrip_msg_cur', 'comps_roundtrip_msg_pre_cur',
+    'Good.sized', 'bsPad_frame', 'DComp.withByteSize_okM', 'DComp.withByteSize_ok', 'DComp.structBS_ok', 'DComp.structOM_okM',
+    'DComp.structOM_ok',
+    'MComps.encode_eq', 'DComp.structM_encode_eq', 'DComp.structM_okM', 'DComp.structM_ok', 'Comp.ofMItem_ok', 'Comp.ofMinMaxMid_ok',
+    'Comp.ofMinMaxFull_ok', 'Comp.ofMinMaxLast_ok', 'Comp.ofLeading_ok', 'ModelInv.top',
+    'encodeParam_keeps_trig', 'kt_encode_all', 'encodeParam_keeps_usedCovers', 'ku_encode_all',
+    'Good.rawAt', 'Comp.matchingReq_ok',
+    'encodeDop_std_cursorBit', 'Good.peek', 'emProbe_miss', 'emProbe_hit', 'decodeUntilMarkerC_eq', 'DComp.endMarkerEop_ok',
+    'DComp.endMarkerMid_ok', 'Comp.ofValueM_ok', 'EmLayout.miss_of_first', 'EmLayout.miss_withByteSize',
+    'encodeDop_keeps_eop_false', 'encodeStaticItemsM_eq', 'decodeStaticItemsM_eq', 'DComp.staticFieldM_ok', 'DComp.mux_okM', 'encodeItemsM_eq', 'DComp.dynLenFieldM_okM', 'DComp.eopFieldM_ok',
+    'ex2_described', 'ex2St_described', 'ex2Tail_described', 'ex3_described', 'ex4_described', 'ex5_described', 'ex6_described']]
 RULE = ("well-formed descriptions (envelope wf of DESIGN §6/C01, by construction in harness/odxgen/gen.py) x canonical values "
         "(odxgen/values.py): corpus of past failures; every BYTE-SIZE structure size x offset; every (integer type, encoding, byte order, "
         "bit length, bit position) standard-length DOP with boundary values; floats/strings/byte fields x encodings x byte orders; random "
